@@ -249,6 +249,16 @@ set_option maxRecDepth 100000 in
 example : ((run { repaired5 with drainAll := true } wBatchOverflow).conns 34).blocked = none ∧
     outOf (run { repaired5 with drainAll := true } wBatchOverflow) 100 = [.int 34, .nil] := by decide
 
+/-! ### Elements that reach a waited key without passing through the LPUSH / RPUSH arms -/
+
+/-- The commands after which the server serves the blocked keys of the database — read from the source on this run
+    (`process_normal_command` for a top-level command, `handle_exec` for a queued one) — include every command that can
+    make a list appear or grow behind the push arms: a script started either way, and both renames.  (Scripts and RENAME
+    are outside the event machine; each arrival is also replayed on the server by the probes of lib/c13.py.) -/
+theorem sweep_covers_scripts_and_rename :
+    ∀ c ∈ ["EVAL", "EVALSHA", "RENAME", "RENAMENX"],
+      c ∈ Gen.Blocking.sweepCommands ∧ c ∈ Gen.Blocking.execSweepCommands := by decide
+
 /-! ### A transaction is one indivisible step -/
 
 /-- What the commands queued in a transaction see and answer depends on the lists alone — not on who is blocked:
